@@ -113,6 +113,14 @@ def run(tier, replay=None):
         scns, pairs = [rp["scenario"]], []
     else:
         scns, pairs = gen(tier, rng)
+    # the position arithmetic of the match finders as a model (spec/HashWindow.tla): with the initialisations the code uses now no candidate lies
+    # outside the referencable history; the three historical initialisations (defects 10 and 16, seeded change C17d) must violate that
+    hw = {}
+    if not replay:
+        for var in ("fixed", "defect16", "defect10", "seedC17d"):
+            r = tlc_cached("mc/MCHashWindow", cfg="MCHashWindow_%s.cfg" % var, wd=wd, workers=4, timeout=900, allow_violation=(var != "fixed"))
+            if (var == "fixed") != r["ok"]: raise Infra("HashWindow.tla variant %s: expected %s" % (var, "no violation" if var == "fixed" else "a violation of DerefInsideHistory"))
+            hw[var] = {"distinct_states": r["distinct"], "invariant_holds": r["ok"]}
     recs_all, by = [], {}
     calls = 0
     for cpu in sorted(set(s["meta"].get("cpu", "host") for s in scns)):
@@ -142,7 +150,8 @@ def run(tier, replay=None):
     near = sum(1 for s in scns if s["meta"]["family"] == "window" and res[s["scn"]]["stats"].get("match"))
     dictref = sum(1 for s in scns if res[s["scn"]]["stats"].get("dictref") or (s["meta"]["family"] == "dict-after-full-flush" and res[s["scn"]]["stats"].get("match")))
     refused = sum(1 for s in scns for e in by[s["scn"]]["setdict"] if e.get("wrong_state"))
-    cov = {"evaluations": len(scns) + len(isc) + eq, "distinct_nontrivial": near + dictref, "window_streams_with_matches": near, "streams_referencing_the_dictionary": dictref,
+    cov = {"window_model": {"module": "spec/HashWindow.tla", "variants": hw},
+           "evaluations": len(scns) + len(isc) + eq, "distinct_nontrivial": near + dictref, "window_streams_with_matches": near, "streams_referencing_the_dictionary": dictref,
            "equality_pairs": eq, "wrong_state_dictionary_attempts": refused, "inflate_with_dictionary_runs": len(isc), "calls": calls,
            "rule": "inputs repeating at distance 2^w-1, 2^w, 2^w+1, 32767/32768/32769 and 70000 for w=9..15 x levels x flush x simulated CPU level: TLC (TraceDeflate.tla) decodes the stream and requires every match distance <= 2^w and no reference before the start (zlib CINFO+8 >= w); "
                    "dictionaries of length 1..70000 with data sharing content with the dictionary tail, set directly and pre-processed: decode WITH the dictionary (last 32 KiB) must give the input, and no reference may reach before the dictionary; "
